@@ -1,5 +1,6 @@
 import JSL.Inv.Feasible
 import JSL.Inv.TimeStep
+import JSL.Inv.AgvPass
 import JSL.Lib.StepSpec
 
 /-!
@@ -82,6 +83,9 @@ structure ResInv (orc : Oracle) (inst : Instance) (cfg : SMConfig) (s0 : State) 
   subs : ∀ σ ∈ res.subStates, StructInv inst σ ∧ SchedInv σ
   dur : DurInv inst res.state
   subsDur : ∀ σ ∈ res.subStates, DurInv inst σ
+  agv : AgvInv res.state
+  subsAgv : ∀ σ ∈ res.subStates, AgvInv σ
+  liveC : res.possible ≠ [] → OccursC orc inst cfg s0 res.state
   live : res.possible ≠ [] → OccursA orc inst cfg s0 res.state ∧ (∀ tr ∈ res.possible, OfferShaped tr)
   /-- while there are offers, nothing is due -/
   quiet : res.possible ≠ [] → Quiet inst res.state
@@ -89,15 +93,22 @@ structure ResInv (orc : Oracle) (inst : Instance) (cfg : SMConfig) (s0 : State) 
   offersFrom : res.possible ≠ [] → ∃ poss, possibleTransitions inst cfg res.state = .ok poss ∧
     ∀ tr ∈ res.possible, tr ∈ poss
 
-theorem smStep_resInv {cfg : SMConfig} {s0 s : State} (hst : Start orc inst s0) (h : OccursA orc inst cfg s0 s)
-    {a : Action} (ha : Admissible a) {fuel : Nat} {r r' : Rng} {res : SMResult} {mic : List State}
-    (hstep : smStep orc inst cfg fuel s r a = .ok (res, r', mic)) :
-    ResInv orc inst cfg s0 res ∧ ∀ σ ∈ mic, StructInv inst σ ∧ SchedInv σ ∧ DurInv inst σ := by
+theorem smStep_resInv {cfg : SMConfig} {s0 s : State} (hst : Start orc inst s0) (hC : OccursC orc inst cfg s0 s)
+    {a : Action} (ha : Admissible a) (hc : ClaimGS s (sortedByTransport a.transitions)) {fuel : Nat} {r r' : Rng}
+    {res : SMResult} {mic : List State} (hstep : smStep orc inst cfg fuel s r a = .ok (res, r', mic)) :
+    ResInv orc inst cfg s0 res ∧ ∀ σ ∈ mic, StructInv inst σ ∧ SchedInv σ ∧ DurInv inst σ ∧ AgvInv σ := by
+  have h := hC.toA
   obtain ⟨hI, hS⟩ := final_inv hst h ha hstep
   refine ⟨⟨hI, hS, fun σ hσ => (occursA_inv hst (OccursA.sub h ha hstep hσ)).2, final_dur hst h ha hstep,
-      fun σ hσ => occursA_dur hst (OccursA.sub h ha hstep hσ), ?_, ?_, ?_⟩,
+      fun σ hσ => occursA_dur hst (OccursA.sub h ha hstep hσ), final_agv hst hC ha hc hstep,
+      fun σ hσ => occursC_agv hst (OccursC.sub hC ha hc hstep hσ), ?_, ?_, ?_, ?_⟩,
     fun σ hσ => ⟨(occursA_inv hst (OccursA.micro h ha hstep hσ)).2.1, (occursA_inv hst (OccursA.micro h ha hstep hσ)).2.2,
-      occursA_dur hst (OccursA.micro h ha hstep hσ)⟩⟩
+      occursA_dur hst (OccursA.micro h ha hstep hσ), occursC_agv hst (OccursC.micro hC ha hc hstep hσ)⟩⟩
+  · intro hne
+    rcases (smStep_spec hstep).2 with h1 | h1 | h1
+    · exact absurd h1.2.2.2 hne
+    · exact absurd h1.2.2.1 hne
+    · exact OccursC.result hC ha hc hstep h1.2.1
   · intro hne
     rcases (smStep_spec hstep).2 with h1 | h1 | h1
     · exact absurd h1.2.2.2 hne
@@ -120,19 +131,20 @@ theorem admissible_noOp : Admissible noOpAction := ⟨fun _ h => by simp [noOpAc
 
 theorem envReset_inv {ec : EnvCfg} {s0 : State} (hst : Start orc inst s0) {r : Rng} {e : EnvState} {mic : List State}
     (h : envReset orc inst ec s0 r = .ok (e, mic)) :
-    ResInv orc inst ec.sm s0 e.res ∧ ∀ σ ∈ mic, StructInv inst σ ∧ SchedInv σ ∧ DurInv inst σ := by
+    ResInv orc inst ec.sm s0 e.res ∧ ∀ σ ∈ mic, StructInv inst σ ∧ SchedInv σ ∧ DurInv inst σ ∧ AgvInv σ := by
   unfold envReset mwReset at h
   obtain ⟨⟨res, mw, r', mic'⟩, h1, h⟩ := except_bind_eq_ok h
   obtain ⟨⟨res', r'', mic''⟩, h2, h1⟩ := except_bind_eq_ok h1
   simp at h1 h
   obtain ⟨rfl, rfl, rfl, rfl⟩ := h1
   obtain ⟨rfl, rfl⟩ := h
-  exact smStep_resInv hst OccursA.init admissible_noOp h2
+  exact smStep_resInv hst OccursC.init admissible_noOp
+    (by simp only [noOpAction, sortedByTransport_nil]; exact ⟨fun _ h => (by cases h), List.Pairwise.nil⟩) h2
 
 theorem envStep_inv {ec : EnvCfg} {st : RewardStatic} {s0 : State} (hst : Start orc inst s0) {e : EnvState}
     (hi : ResInv orc inst ec.sm s0 e.res) {a : AgentAct} {out : StepOut}
     (h : envStep orc inst ec st e a = .ok out) :
-    ResInv orc inst ec.sm s0 out.env.res ∧ ∀ σ ∈ out.micro, StructInv inst σ ∧ SchedInv σ ∧ DurInv inst σ := by
+    ResInv orc inst ec.sm s0 out.env.res ∧ ∀ σ ∈ out.micro, StructInv inst σ ∧ SchedInv σ ∧ DurInv inst σ ∧ AgvInv σ := by
   unfold envStep at h
   split at h
   · simp at h
@@ -140,12 +152,15 @@ theorem envStep_inv {ec : EnvCfg} {st : RewardStatic} {s0 : State} (hst : Start 
     simp only at h
     obtain ⟨⟨rew, cnt⟩, _, h⟩ := except_bind_eq_ok h
     simp at h; subst h
-    have key : ResInv orc inst ec.sm s0 res' ∧ ∀ σ ∈ mic, StructInv inst σ ∧ SchedInv σ ∧ DurInv inst σ := by
+    have key : ResInv orc inst ec.sm s0 res' ∧ ∀ σ ∈ mic, StructInv inst σ ∧ SchedInv σ ∧ DurInv inst σ ∧ AgvInv σ := by
       rcases mwStep_cases hm with ⟨o, o', rest, _, hp, e1, e2, e3, _, _, e6, _⟩ | ⟨act, hsub, hk, hs⟩
       · simp only at e1 e2 e3 e6
         have hl := hi.live (by rw [hp]; simp)
         refine ⟨⟨by rw [e1]; exact hi.struct, by rw [e1]; exact hi.sched, by rw [e2]; exact hi.subs,
-          by rw [e1]; exact hi.dur, by rw [e2]; exact hi.subsDur, ?_, ?_, ?_⟩, ?_⟩
+          by rw [e1]; exact hi.dur, by rw [e2]; exact hi.subsDur, by rw [e1]; exact hi.agv, by rw [e2]; exact hi.subsAgv,
+          ?_, ?_, ?_, ?_⟩, ?_⟩
+        · intro _
+          rw [e1]; exact hi.liveC (by rw [hp]; simp)
         · intro _
           rw [e1, e3]
           exact ⟨hl.1, fun tr htr => hl.2 tr (by rw [hp]; exact List.mem_cons_of_mem _ htr)⟩
@@ -168,7 +183,16 @@ theorem envStep_inv {ec : EnvCfg} {st : RewardStatic} {s0 : State} (hst : Start 
             | nil => rw [hp] at this; simp at this
             | cons x xs => rw [hp] at this; simp at this; rw [this]; simp
           · rcases hk with ⟨_, h, _⟩ | ⟨_, h, _⟩ <;> rw [h] <;> simp
-        exact smStep_resInv hst hl.1 ha hs
+        have hclaim : ClaimGS e.res.state (sortedByTransport act.transitions) := by
+          obtain ⟨poss, hposs, hsub⟩ := hi.offersFrom hne
+          apply claimGS_of_offer hposs
+          rcases hk with ⟨_, _, ht, _⟩ | ⟨_, _, ht, _⟩
+          · right
+            cases hp : e.res.possible with
+            | nil => exact absurd hp hne
+            | cons x xs => exact ⟨x, hsub x (by rw [hp]; simp), by rw [ht, hp]; rfl⟩
+          · left; exact ht
+        exact smStep_resInv hst (hi.liveC hne) ha hclaim hs
     by_cases hsuc : res'.success = true
     · simp only [hsuc, if_true]; exact key
     · simp only [hsuc]
@@ -198,7 +222,16 @@ theorem exposed_dur {ec : EnvCfg} {st : RewardStatic} {s0 σ : State} (hst : Sta
   cases h with
   | state he => exact (envReach_inv hst he).dur
   | sub he hσ => exact (envReach_inv hst he).subsDur σ hσ
-  | resetMicro hr hσ => exact ((envReset_inv hst hr).2 σ hσ).2.2
-  | micro he hs hσ => exact ((envStep_inv hst (envReach_inv hst he) hs).2 σ hσ).2.2
+  | resetMicro hr hσ => exact ((envReset_inv hst hr).2 σ hσ).2.2.1
+  | micro he hs hσ => exact ((envStep_inv hst (envReach_inv hst he) hs).2 σ hσ).2.2.1
+
+/-- every exposed state satisfies the AGV invariant -/
+theorem exposed_agv {ec : EnvCfg} {st : RewardStatic} {s0 σ : State} (hst : Start orc inst s0)
+    (h : Exposed orc inst ec st s0 σ) : AgvInv σ := by
+  cases h with
+  | state he => exact (envReach_inv hst he).agv
+  | sub he hσ => exact (envReach_inv hst he).subsAgv σ hσ
+  | resetMicro hr hσ => exact ((envReset_inv hst hr).2 σ hσ).2.2.2
+  | micro he hs hσ => exact ((envStep_inv hst (envReach_inv hst he) hs).2 σ hσ).2.2.2
 
 end JSL
